@@ -55,6 +55,9 @@ PARAMS = {
     "min_avg_coverage": ("float", [3.0, 1]),
     "vcf_sample_idx": ("int", [1, 0]),
     "indelpost": ("bool", [True, False]),
+    # the profile's joint depth of the neutral region: documented attribute like the others; a profile file has
+    # its own value (neutral: value:), an explicit setting must win over it like over any other default
+    "neutral_value": ("float", [150000.0, 98765.5]),
 }
 ROUTES = ["profile_api", "genotype_api", "cli", "options", "options_explicit", "roundtrip", "dump",
           "profile_api", "genotype_api", "cli", "options", "options_explicit", "roundtrip", "dump", "profile_cli",
@@ -133,6 +136,9 @@ def gen_plan(rng, tier, i, seed):
             options.append([n, given, exp, typ])
         if route == "options":
             settings = []
+    empty_options = route == "options_explicit" and rng.random() < 0.15
+    if empty_options:
+        options = []  # the file has an `options:` key with nothing under it
     extra = None
     r = rng.random()
     if r < 0.15:
@@ -147,7 +153,7 @@ def gen_plan(rng, tier, i, seed):
     # history: an earlier version of the same profile file (other values) was loaded by the same process
     prior = route in ("roundtrip", "options", "options_explicit") and rng.random() < 0.5
     return {"w": gen_world(seed, i % cfg["worlds"], exome=(route == "exome")), "route": route,
-            "settings": settings, "options": options, "prior": prior,
+            "settings": settings, "options": options, "prior": prior, "empty_options": empty_options,
             "exome_name": rng.choice(["exome", "wxs", "wes"]), "exome_cli": rng.random() < 0.5,
             "extra_pos": rng.choice(["first", "first", "middle", "last"]),
             "extra": extra, "dashes": rng.random() < (0.6 if route in ("cli", "profile_cli", "dump") else 0.3),
@@ -172,7 +178,8 @@ def execute(plan, runner, rundir):
               "route": plan["route"], "settings": plan["settings"], "options": plan["options"],
               "extra": plan["extra"], "dashes": plan["dashes"], "prior": plan.get("prior", False),
               "exome_name": plan.get("exome_name"), "exome_cli": plan.get("exome_cli"),
-              "extra_pos": plan.get("extra_pos"), "vcf_cli": plan.get("vcf_cli")}
+              "extra_pos": plan.get("extra_pos"), "vcf_cli": plan.get("vcf_cli"),
+              "empty_options": plan.get("empty_options")}
     res = {}
     if plan["route"] in ("roundtrip", "dump", "options", "options_explicit", "profile_cli"):
         res["write"] = runner.segment(dict(common, kind="write", hashseed=plan["write_hashseed"]))
@@ -251,6 +258,11 @@ def judge(plan, outcome):
         vs.append(_v("well-formed parameters were rejected", error=rd["rejected"], settings=plan["settings"],
                      options=plan["options"], **env))
         return vs
+    if rd.get("crash") and not rd["observed"]:
+        vs.append(_v("well-formed parameters ended the run with an unexpected (non-Aldy) error",
+                     error={k: rd["crash"].get(k) for k in ("type", "msg")}, settings=plan["settings"],
+                     options=plan["options"], empty_options_section=bool(plan.get("empty_options")), **env))
+        return vs
     if not rd["observed"]:
         return vs  # the run did not get as far as the first stage: nothing observed
     for n, (e, typ, src, given) in sorted(exp.items()):
@@ -261,6 +273,8 @@ def judge(plan, outcome):
                          got_type=type(got).__name__, **env))
     # untouched parameters keep their defaults
     for n, d in rd["defaults"].items():
+        if n == "neutral_value":
+            continue  # (measured / read from the profile file unless somebody sets it)
         if n not in exp and n in rd["observed"] and rd["observed"][n] != d and n not in rd.get("forced", []):
             vs.append(_v("a parameter nobody set differs from its default", name=n, got=rd["observed"][n],
                          default=d, **env))
@@ -283,6 +297,9 @@ def signature(v):
         sig["given_type"] = d.get("given_type")
     if v["clause"].startswith("malformed"):
         sig["kind"] = PARAMS.get(d["name"], ("?",))[0]
+    if v["clause"].startswith("well-formed parameters ended"):
+        sig["error"] = (d.get("error") or {}).get("type")
+        sig["empty_options_section"] = d.get("empty_options_section")
     return sig
 
 
@@ -387,13 +404,15 @@ def _profile_attrs(p):
     return out
 
 
-def _options_yaml(src, dst, options, unknown_first=False):
+def _options_yaml(src, dst, options, unknown_first=False, empty=False):
     """Copy a profile YAML adding an `options:` section (hand-written by the user)."""
     import yaml
 
     d = yaml.safe_load(open(src))
     d["options"] = {n: given for n, given, e, typ in options}
-    if unknown_first:
+    if empty and not options:
+        d["options"] = None  # "options:" and nothing below it
+    elif unknown_first:
         d["options"] = dict([("lab_note", "kept for the record")] + list(d["options"].items()))
     with open(dst, "w") as f:
         f.write(yaml.dump(d, default_flow_style=None, sort_keys=False))
@@ -454,7 +473,7 @@ def run_segment(seg):
             out["wrote_profile"] = isinstance(doc, dict) and "neutral" in doc
         elif route in ("options", "options_explicit"):
             _options_yaml(os.path.join(wd, man["profile_yml"]), os.path.join(rd, "opts.yml"), seg["options"],
-                          unknown_first=(seg.get("extra_pos") == "first"))
+                          unknown_first=(seg.get("extra_pos") == "first"), empty=seg.get("empty_options"))
         elif route == "dump":
             rec = O.run_main(["genotype", bam, "--gene", db, "--profile", refbam, "-n", man["neutral"],
                               "--debug", os.path.join(rd, "dbg"), "--solver", "cbc"])
@@ -501,8 +520,8 @@ def run_segment(seg):
             try:
                 Profile.load(gene, path, None)
                 res["prior_loaded"] = True
-            except AldyException:
-                pass
+            except Exception:
+                pass  # (a warm-up; the judged load follows)
             with open(path, "w") as f:
                 f.write(keep)
             SIM.stage_calls.clear()
@@ -563,11 +582,16 @@ def run_segment(seg):
             if hasattr(orig, "__wrapped__"):
                 orig = orig.__wrapped__
 
+            crashes = []
+
             def wrapped(*a, **k):
                 try:
                     return orig(*a, **k)
                 except AldyException as ex:
                     errs.append(O.exc_info(ex))
+                    raise
+                except Exception as ex:
+                    crashes.append(O.exc_info(ex))
                     raise
 
             wrapped.__wrapped__ = orig
@@ -575,12 +599,16 @@ def run_segment(seg):
             rec = O.run_main(argv)
             if errs and not SIM.stage_calls:
                 res["rejected"] = errs[0]
+            if crashes and not SIM.stage_calls:
+                res["crash"] = crashes[0]
             observe_stage()
             if route == "dump":
                 # the dump reader resets these four on purpose (sam.py:327-330)
                 res["forced"] = ["display_format", "debug_probe", "debug_novel", "min_avg_coverage"]
     except AldyException as ex:
         res["rejected"] = O.exc_info(ex)
+    except Exception as ex:  # Profile.load() called directly (profile_api, roundtrip)
+        res["crash"] = O.exc_info(ex)
     return res
 
 
